@@ -167,3 +167,62 @@ def ok_blocks(b):
         if st["s"] == "assign" and st["lhs"]["l"] == 0 and not st["lhs"]["p"] and st["rv"]["r"] == "agg" and st["rv"].get("agg") == "adt":
             res.setdefault(st["rv"]["vname"], []).append(bi)
     return res
+
+
+def _c(t):
+    while isinstance(t, tuple) and t and t[0] in ("cast", "ref", "deref"):
+        t = t[1]
+    return t
+
+
+def fact_nonzero(facts, term):
+    """A dominating fact implies term != 0 (any of: t != 0, t > 0, t >= k with k >= 1)."""
+    term = _c(term)
+    for f in facts:
+        if f[0] != "cmp":
+            continue
+        a, b = _c(f[2]), _c(f[3])
+        if a == term and b[0] == "const" and isinstance(b[1], int):
+            if (f[1] == "Ne" and b[1] == 0) or (f[1] == "Gt" and b[1] >= 0) or (f[1] == "Ge" and b[1] >= 1):
+                return True
+        if b == term and a[0] == "const" and isinstance(a[1], int):
+            if (f[1] == "Ne" and a[1] == 0) or (f[1] == "Lt" and a[1] >= 0) or (f[1] == "Le" and a[1] >= 1):
+                return True
+    return False
+
+
+def fact_zero(facts, term):
+    term = _c(term)
+    for f in facts:
+        if f[0] != "cmp":
+            continue
+        a, b = _c(f[2]), _c(f[3])
+        if a == term and b[0] == "const" and isinstance(b[1], int) and ((f[1] == "Eq" and b[1] == 0) or (f[1] == "Le" and b[1] == 0) or (f[1] == "Lt" and b[1] == 1)):
+            return True
+        if b == term and a[0] == "const" and isinstance(a[1], int) and ((f[1] == "Eq" and a[1] == 0) or (f[1] == "Ge" and a[1] == 0)):
+            return True
+    return False
+
+
+def fact_at_most(facts, term, k):
+    """A dominating fact implies term <= k."""
+    term = _c(term)
+    for f in facts:
+        if f[0] != "cmp":
+            continue
+        a, b = _c(f[2]), _c(f[3])
+        if a == term and b[0] == "const" and isinstance(b[1], int):
+            if (f[1] == "Le" and b[1] <= k) or (f[1] == "Lt" and b[1] <= k + 1) or (f[1] == "Eq" and b[1] <= k):
+                return True
+        if b == term and a[0] == "const" and isinstance(a[1], int):
+            if (f[1] == "Ge" and a[1] <= k) or (f[1] == "Gt" and a[1] <= k + 1):
+                return True
+    return False
+
+
+def is_min_name(n):
+    return n.endswith("cmp::min") or n.endswith("cmp::Ord::min")
+
+
+def is_max_name(n):
+    return n.endswith("cmp::max") or n.endswith("cmp::Ord::max")
